@@ -501,6 +501,8 @@ def run(ctx, tier):
     results += c06.error_atomic(ctx, rule='C01.error-atomic')
     results += c06.guard(ctx, rule='C01.guard')
     results += c02.reload_rule(ctx, rule='C01.reload')
+    # what a later transaction may allocate is decided by commits alone: a free list published from anywhere else makes live entries overwritable
+    results += c06.shared_freelist(ctx, rule='C01.shared-freelist')
     import c16
     results += c16.grow(ctx, rule='C01.grow')
     import profile
